@@ -19,6 +19,7 @@ var hostLabels = []string{"a", "b", "ab", "{h}", "a{h}", "{g}", "b{g}"}
 // shape-dependent situations; they are permanent members of every run.
 var awkwardTables = [][]string{
 	{"/a{x}/a/", "/a{x}/{x}/*{x}", "/*{y}/a/b{y}", "/a{x}/{x}/a/"},
+	{"/a/*{x}/b/*{y}/a/a", "/a/*{x}/b/*{y}/a/b", "/a/*{x}/b/*{y}/a/a/b"}, // two infix catch-alls in one node key, then a write below it
 	{"/ab/", "/abb"},
 	{"/a/", "/{x}/a/ab", "/a{x}/a{x}/*{y}"},
 	{"/b", "/b{y}/*{y}/"},
@@ -62,8 +63,8 @@ var awkwardTables = [][]string{
 	{"/{x}", "/*{w}"},                      // P1: the parameters of an abandoned branch are dropped (/a/b)
 }
 
-var awkwardPaths = []string{"/bb/b", "/a/ab/b", "/a/b/", "/ab/b/", "/a/b", "/a/", "/a/c", "/a/$n", "/a/~v", "/a/c/d", "/a/b/ab/abc", "/a/b/a/", "/ab/a/a", "/a", "/b/", "/abb/", "/abc/", "/a/a/a/a", "/a/a/a/ab", "/ab", "/a/b/b", "/a/b/", "/ab/b", "/ab/b/"}
-var awkwardHosts = []string{"/a", "a.b/a", "/", "a/b.b", "1.2", "10.0.0.7", "1", "[::1]:80", "1.b.b.a", "a.1.2.a", "b.a.a.a", "a.ab", "a.b.ab", "a.ab:8080", "aa.abb.abb", "a.b", "a.b.a", "a.b.b", "b.a.b"}
+var awkwardPaths = []string{"/a/a/b/b/a/a/b", "/a/a/b/b/a/a", "/a/a/b/b/a/b", "/a/b/a/b/a/b/a/a/b", "/bb/b", "/a/ab/b", "/a/b/", "/ab/b/", "/a/b", "/a/", "/a/c", "/a/$n", "/a/~v", "/a/c/d", "/a/b/ab/abc", "/a/b/a/", "/ab/a/a", "/a", "/b/", "/abb/", "/abc/", "/a/a/a/a", "/a/a/a/ab", "/ab", "/a/b/b", "/a/b/", "/ab/b", "/ab/b/"}
+var awkwardHosts = []string{"/a", "a.b/a", "/", "a/b.b", "{a.b", "{a}.b", "a.b..", "a.b..:8080", "1.2", "10.0.0.7", "1", "[::1]:80", "1.b.b.a", "a.1.2.a", "b.a.a.a", "a.ab", "a.b.ab", "a.ab:8080", "aa.abb.abb", "a.b", "a.b.a", "a.b.b", "b.a.b"}
 
 type matchGen struct {
 	Pool   []string
@@ -286,7 +287,7 @@ func withHostSpellings(hs []string, n int) []string {
 			continue
 		}
 		n--
-		for _, v := range []string{h + ":8080", h + ".", h + ".:8080"} {
+		for _, v := range []string{h + ":8080", h + ".", h + ".:8080", h + "..", h + "..:8080"} {
 			if !slices.Contains(out, v) {
 				out = append(out, v)
 			}
